@@ -26,7 +26,8 @@ from translate import astutil, tr_cache
 
 PINS = json.loads((VERIF / "translate" / "pins_C02.json").read_text())
 FUEL = 40
-HISTORY_TIMEOUT_S = 20
+HISTORY_TIMEOUT_S = 40
+MAX_TIMEOUTS = 4
 
 K_CATCH = "catch:private-entry-replayed-after-change-in-caught-subtree"
 K_PROJ = "validity:File-inside-SimpleExpression-of-cached-reduction-not-checked"
@@ -71,31 +72,54 @@ def _workdir():
     return tempfile.mkdtemp(prefix="rv_c02_", dir=os.environ.get("VERIF_TMP") or base)
 
 
-def _run_case(case):
-    """Worker: one history on the real code (own process: the task registry is per process)."""
-    import signal
+_TIMEOUTS = None      # shared counter of timed-out histories (set by the pool initializer)
 
-    class _Timeout(BaseException):
-        pass
 
-    def _alarm(signum, frame):
-        raise _Timeout()
-
+def _init_worker(tmpl_base, counter):
+    global _TIMEOUTS
+    _TIMEOUTS = counter
+    cp.TEMPLATE_BASE = tmpl_base
     cp.quiet()
-    wd = _workdir()
-    old = signal.signal(signal.SIGALRM, _alarm)
-    signal.alarm(HISTORY_TIMEOUT_S)
-    try:
-        return cp.run_history_real(case, wd)
-    except _Timeout:
-        return ("crash", f"the history did not finish within {HISTORY_TIMEOUT_S} s on the real scheduler (livelock?)")
-    except Exception as e:  # noqa
-        import traceback
-        return ("crash", f"{type(e).__name__}: {e}\n{traceback.format_exc()[-1500:]}")
-    finally:
-        signal.alarm(0)
-        signal.signal(signal.SIGALRM, old)
-        shutil.rmtree(wd, ignore_errors=True)
+    cp.template_db()      # migrate once per worker, outside any history's time limit
+
+
+class _Timeout(BaseException):
+    pass
+
+
+def _alarm(signum, frame):
+    raise _Timeout()
+
+
+def _run_case(case):
+    """Worker: one history on the real code (own process: the task registry is per process).
+    A history normally takes about a second; one that does not finish within HISTORY_TIMEOUT_S is
+    tried once more (machine load), then reported; after MAX_TIMEOUTS reports the remaining
+    histories are skipped (a livelocking scheduler would otherwise cost the whole budget)."""
+    import signal
+    cp.quiet()
+    msg = ""
+    for attempt in (0, 1):
+        if _TIMEOUTS is not None and _TIMEOUTS.value >= MAX_TIMEOUTS:
+            return ("crash", "skipped: too many histories did not finish on the real scheduler")
+        wd = _workdir()
+        old = signal.signal(signal.SIGALRM, _alarm)
+        signal.alarm(HISTORY_TIMEOUT_S)
+        try:
+            return cp.run_history_real(case, wd)
+        except _Timeout:
+            msg = f"the history did not finish within {HISTORY_TIMEOUT_S} s (twice) on the real scheduler (livelock?)"
+        except Exception as e:  # noqa
+            import traceback
+            return ("crash", f"{type(e).__name__}: {e}\n{traceback.format_exc()[-1500:]}")
+        finally:
+            signal.alarm(0)
+            signal.signal(signal.SIGALRM, old)
+            shutil.rmtree(wd, ignore_errors=True)
+    if _TIMEOUTS is not None:
+        with _TIMEOUTS.get_lock():
+            _TIMEOUTS.value += 1
+    return ("crash", msg)
 
 
 def directed_case(rng, kind):
@@ -188,8 +212,8 @@ class Check(PropertyCheck):
                 self.variant = tr_cache.translate(pins=None)[1]
             except Exception:  # noqa
                 self.variant = (False, True)
-        n_rand = 110 if self.tier == "quick" else 1500
-        n_dir = 16 if self.tier == "quick" else 200
+        n_rand = 70 if self.tier == "quick" else 1500
+        n_dir = 12 if self.tier == "quick" else 200
         cases = []
         for name, w in WITNESSES.items():
             cases.append(("witness:" + name, {k: w[k] for k in ("prog", "ops", "ntasks", "npaths")}))
@@ -204,11 +228,17 @@ class Check(PropertyCheck):
             fam = cp.Family(self.rng)
             cases.append((f"random:{i}", fam.gen_history(self.rng.randrange(2, 7))))
         t0 = time.time()
-        cp.template_db()
-        ctx = multiprocessing.get_context("fork")
-        with ProcessPoolExecutor(max_workers=min(NCPU, 8), mp_context=ctx) as ex:
-            reals = list(ex.map(_run_case, [c for _, c in cases], chunksize=2))
-        cp.cleanup_template()
+        # workers are spawned (no state, locks or threads inherited from this process) and make
+        # their own migrated template database under a directory this process removes
+        ctx = multiprocessing.get_context("spawn")
+        tmpl = _workdir()
+        counter = ctx.Value("i", 0)
+        try:
+            with ProcessPoolExecutor(max_workers=min(NCPU, 8), mp_context=ctx, initializer=_init_worker,
+                                     initargs=(tmpl, counter)) as ex:
+                reals = list(ex.map(_run_case, [c for _, c in cases], chunksize=2))
+        finally:
+            shutil.rmtree(tmpl, ignore_errors=True)
         self.stat("timing", "real_runs_wall_s", int(time.time() - t0))
         self._cases = []
         for (tag, case), real in zip(cases, reals):
